@@ -11,17 +11,20 @@ Property theorems only.  They speak about the executable model `DSymVerif.Inv.*`
 (Model/Invariants.lean, a statement-by-statement copy of src/fpgroups/invariants.rs over `Int`,
 tied to the code by the differential check) and the Spec `DSymVerif.SpecC14.*`, for ALL inputs.
 
-What is proved here (✔ of DESIGN §6 C14): the arithmetic core (`gcdx`), the exponent-sum
-homomorphism (`relator_as_vector`) with rotation / conjugation invariance of the whole result,
-the divisibility pass and the output format, termination of every loop, and that the
-instrumented model used by the driver computes the same values.
-Also proved (○ `clear_step_unimodular`, ○ `diagonalize_equiv`): every single row / column step of
-the elimination is a 2×2-block integer operation of determinant ±1 that clears its target entry,
-and `diagonalize_in_place` ends in a diagonal `D = U·A·V` with `det U, det V = ±1` (Mathlib
-matrices) — under the side condition `SmallRun` that `find_pivot` never meets an entry of absolute
-value ≥ `isize::MAX` (its minimum search starts there and would overlook it).
-What is NOT proved (kept as `def … : Prop`, evaluated per explored input by the Spec):
-`abelian_invariants_statement`, which needs the uniqueness of the Smith normal form.
+What is proved here, for ALL inputs:
+  §1–§4  the arithmetic core (`gcdx`), the exponent-sum homomorphism (`relator_as_vector`) with
+         rotation / conjugation invariance of the whole result, the divisibility pass, the output
+         format, termination of every loop, agreement of the instrumented model used by the driver;
+  §5–§6  every elimination step is a unimodular 2×2-block operation; `diagonalize_in_place` ends
+         in a diagonal `D = U·A·V`, `det U, det V = ±1` (Mathlib matrices), under `SmallRun`, and
+         `SmallRun` follows from the instrumented bound `< isize::MAX`;
+  §7     determinantal divisors are invariant under unimodular equivalence, equal the partial
+         products of a diagonal divisibility chain, and are what the Spec computes; hence the
+         MAIN STATEMENT `abelian_invariants_eq_spec`: model output = Spec list, for every
+         presentation whose run stays below `isize::MAX`;
+  §8     all invariance clauses of the property.
+What is NOT true (§9): the unconditional statement — the `isize` code overflows on small inputs
+(finding F-C14-overflow); the theorems cover exactly the runs without overflow.
 
 Vocabulary:
   `Inv.InRange n g`      letter of a presentation on n generators: g ≠ 0 ∧ |g| ≤ n
@@ -35,7 +38,7 @@ Vocabulary:
   `Inv.SmallRun is mat`  `SmallAt` holds at the start of each outer iteration `i ∈ is` of
                          `diagonalize_in_place` started on `mat`
 -/
-import DSymVerif.Proofs.InvariantsMatrix
+import DSymVerif.Proofs.InvariantsMeta
 import DSymVerif.Proofs.InvariantsBound
 import Mathlib.Data.List.Forall2
 
@@ -309,15 +312,198 @@ example : Rect [[-3]] 1 1 ∧ 0 < 1 ∧ SmallRun (List.range (min 1 1)) [[-3]] :
     · simp
   · simp
 
-/-! ## 7. open obligation (statement fixed, not proved; evaluated by the Spec per input) -/
+/-- the side condition holds for every run the `isize` implementation can represent: if the
+    largest intermediate absolute value of the instrumented model stays below `isize::MAX`,
+    `find_pivot` never overlooks an entry -/
+theorem small_run_of_bound (mat : Mat) (n m b0 : Nat) (hR : Rect mat n m) (hn : 0 < n)
+    (hf : ((diagonalizeB mat b0).2 : Int) < isizeMax) : SmallRun (List.range (min n m)) mat :=
+  smallRun_of_bound mat n m b0 hR hn hf
 
-/-- ◐ the main clause: the returned list is the one the Spec computes from the determinantal
-    divisors.  With `diagonalize_equiv`, `chain_step` and `output_format` what is missing is the
-    invariance of the determinantal divisors under unimodular equivalence (uniqueness of the Smith
-    normal form; not in Mathlib in usable form) and the discharge of `SmallRun` from the bound of
-    the instrumented model.  With it, the remaining invariances of the property (reordering /
-    inverting relators, renaming / inverting generators, appending products) follow from
-    `vector_hom_rows`, since all of these are unimodular row / column operations on the matrix. -/
+example : Rect [[-3]] 1 1 ∧ 0 < 1 := ⟨⟨rfl, by intro row hrow; simp at hrow; subst hrow; rfl⟩, by decide⟩
+
+/-! ## 7. determinantal divisors; the main statement -/
+
+/-- determinantal divisors (`dk A k` = gcd of all `k × k` minors, Mathlib `Matrix.det` of
+    `Matrix.submatrix`) do not change under multiplication by integer matrices of determinant ±1
+    on either side -/
+theorem determinantal_divisors_invariant {n m : Nat} (A : Matrix (Fin n) (Fin m) ℤ)
+    (U : Matrix (Fin n) (Fin n) ℤ) (V : Matrix (Fin m) (Fin m) ℤ)
+    (hU : U.det = 1 ∨ U.det = -1) (hV : V.det = 1 ∨ V.det = -1) (k : Nat) :
+    dk (U * A * V) k = dk A k := by
+  have hU' : IsUnit U := (Matrix.isUnit_iff_isUnit_det U).mpr (Int.isUnit_iff.mpr hU)
+  have hV' : IsUnit V := (Matrix.isUnit_iff_isUnit_det V).mpr (Int.isUnit_iff.mpr hV)
+  rw [dk_mul_unit _ V hV', dk_unit_mul U hU']
+
+example : ((1 : Matrix (Fin 2) (Fin 2) ℤ).det = 1 ∨ (1 : Matrix (Fin 2) (Fin 2) ℤ).det = -1) :=
+  Or.inl Matrix.det_one
+
+/-- for a diagonal matrix whose diagonal is a divisibility chain, `d_k` is the absolute value of
+    the product of the first `k` diagonal entries -/
+theorem determinantal_divisors_of_chain (e : Nat → ℤ) (hch : ∀ i j, i ≤ j → e i ∣ e j)
+    (n m k : Nat) (hkn : k ≤ n) (hkm : k ≤ m) :
+    dk (diagF e n m) k = (∏ i ∈ Finset.range k, e i).natAbs :=
+  dk_diagF e hch n m k hkn hkm
+
+example : ∀ i j : Nat, i ≤ j → (fun _ : Nat => (2 : ℤ)) i ∣ (fun _ : Nat => (2 : ℤ)) j :=
+  fun _ _ _ => dvd_refl _
+
+/-- the Spec's `detDivisor` (Laplace expansion on lists, sorted index subsets) is `dk` -/
+theorem spec_divisor_is_determinantal_divisor (a : Mat) (r n k : Nat) (hR : Rect a r n) :
+    SpecC14.detDivisor a n k = dk (toMatrix a r n) k :=
+  detDivisor_eq_dk a r n k hR
+
+/-- **main statement** (`abelian_invariants_statement` for the runs without `isize` overflow):
+    for every presentation over `±1 … ±n` on which the largest intermediate absolute value of
+    the computation stays below `isize::MAX`, the model of `abelian_invariants` returns exactly
+    the list the Spec defines: the invariant factors `d_k / d_{k−1} ≠ 1` of the relation matrix
+    (quotients of its determinantal divisors) and one `0` per free generator, ascending. -/
+theorem abelian_invariants_eq_spec (n : Nat) (rels : List (List Int))
+    (hin : ∀ w ∈ rels, ∀ g ∈ w, InRange n g)
+    (hb : ((abelianInvariantsB n rels).2 : Int) < isizeMax) :
+    abelianInvariants n rels = .ok (SpecC14.expected n rels) :=
+  abelianInvariants_eq_expected n rels hin hb
+
+/-- the same under the weaker side condition `SmallRun` on the idealised integer run -/
+theorem abelian_invariants_eq_spec_of_small_run (n : Nat) (rels : List (List Int))
+    (hin : ∀ w ∈ rels, ∀ g ∈ w, InRange n g)
+    (hS : SmallRun (List.range (min rels.length n)) (SpecC14.relMatrix n rels)) :
+    abelianInvariants n rels = .ok (SpecC14.expected n rels) :=
+  abelianInvariants_eq_expected_of_smallRun n rels hin hS
+
+/-- non-vacuity of both hypotheses, and the statement at work: `⟨a, b | a², b³⟩` gives `[6]` -/
+example : (∀ w ∈ ([[1, 1], [2, 2, 2]] : List (List Int)), ∀ g ∈ w, InRange 2 g) ∧
+    ((abelianInvariantsB 2 [[1, 1], [2, 2, 2]]).2 : Int) < isizeMax ∧
+    abelianInvariants 2 [[1, 1], [2, 2, 2]] = .ok [6] ∧
+    SpecC14.expected 2 [[1, 1], [2, 2, 2]] = [6] := by
+  refine ⟨by decide, by decide +kernel, by decide +kernel, by decide +kernel⟩
+
+/-! ## 8. the invariance clauses of the property
+
+The Spec list depends only on `n` and the determinantal divisors; these depend only on the row
+lattice of the relation matrix and do not change under signed permutations of its columns.  With
+the main statement the model's result inherits every invariance, for all runs without overflow.
+
+  `InLat n rels w`      the exponent-sum vector of `w` is an integer combination of those of `rels`
+  `RowsIn n rels rels'` every `w' ∈ rels'` satisfies `InLat n rels w'`
+  `RelProd rels w`      `w` is built from members of `rels` by `FW.mul`, `FW.inverse`, `FW.empty`
+  `renameWord π flip w` every letter `±(k+1)` of `w` replaced by `±(π k + 1)`, sign switched when `flip k`
+-/
+
+/-- the Spec list (the mathematical invariant) is the same for presentations with the same row
+    lattice — unconditionally -/
+theorem spec_same_row_lattice (n : Nat) (rels rels' : List (List Int))
+    (h1 : RowsIn n rels rels') (h2 : RowsIn n rels' rels) :
+    SpecC14.expected n rels' = SpecC14.expected n rels :=
+  expected_eq_of_same_lattice n rels rels' h1 h2
+
+/-- … and under renaming / inverting generators — unconditionally -/
+theorem spec_rename_generators {n : Nat} (π : Equiv.Perm (Fin n)) (flip : Fin n → Bool)
+    (rels : List (List Int)) (hin : ∀ w ∈ rels, ∀ g ∈ w, InRange n g) :
+    SpecC14.expected n (rels.map (renameWord π flip)) = SpecC14.expected n rels :=
+  expected_rename π flip rels hin
+
+/-- general form for the relator clauses: same row lattice, same result -/
+theorem invariants_same_row_lattice (n : Nat) (rels rels' : List (List Int))
+    (hin : ∀ w ∈ rels, ∀ g ∈ w, InRange n g) (hin' : ∀ w ∈ rels', ∀ g ∈ w, InRange n g)
+    (hb : ((abelianInvariantsB n rels).2 : Int) < isizeMax)
+    (hb' : ((abelianInvariantsB n rels').2 : Int) < isizeMax)
+    (h1 : RowsIn n rels rels') (h2 : RowsIn n rels' rels) :
+    abelianInvariants n rels' = abelianInvariants n rels :=
+  abelianInvariants_same_lattice n rels rels' hin hin' hb hb' h1 h2
+
+/-- reordering the relators -/
+theorem invariants_reorder (n : Nat) (rels rels' : List (List Int)) (hp : rels'.Perm rels)
+    (hin : ∀ w ∈ rels, ∀ g ∈ w, InRange n g)
+    (hb : ((abelianInvariantsB n rels).2 : Int) < isizeMax)
+    (hb' : ((abelianInvariantsB n rels').2 : Int) < isizeMax) :
+    abelianInvariants n rels' = abelianInvariants n rels :=
+  abelianInvariants_same_lattice n rels rels' hin
+    (fun w hw => hin w (hp.mem_iff.mp hw)) hb hb'
+    (rowsIn_reorder n rels rels' hp).1 (rowsIn_reorder n rels rels' hp).2
+
+/-- inverting any of the relators -/
+theorem invariants_invert_relators (n : Nat) (rels rels' : List (List Int))
+    (h : List.Forall₂ (fun w w' => w' = w ∨ w' = FW.inverse w) rels rels')
+    (hin : ∀ w ∈ rels, ∀ g ∈ w, InRange n g)
+    (hb : ((abelianInvariantsB n rels).2 : Int) < isizeMax)
+    (hb' : ((abelianInvariantsB n rels').2 : Int) < isizeMax) :
+    abelianInvariants n rels' = abelianInvariants n rels := by
+  have hin' : ∀ w ∈ rels', ∀ g ∈ w, InRange n g := by
+    clear hb hb'
+    induction h with
+    | nil => intro w hw; simp at hw
+    | @cons w w' ws ws' hw _ ih =>
+      intro u hu
+      rcases List.mem_cons.mp hu with rfl | hu
+      · rcases hw with rfl | rfl
+        · exact hin _ List.mem_cons_self
+        · exact inverse_inRange (hin w List.mem_cons_self)
+      · exact ih (fun v hv => hin v (List.mem_cons_of_mem _ hv)) u hu
+  exact abelianInvariants_same_lattice n rels rels' hin hin' hb hb'
+    (rowsIn_invert n rels rels' h).1 (rowsIn_invert n rels rels' h).2
+
+/-- appending products of existing relators (and of their inverses) -/
+theorem invariants_append_products (n : Nat) (rels extra : List (List Int))
+    (h : ∀ u ∈ extra, RelProd rels u)
+    (hin : ∀ w ∈ rels, ∀ g ∈ w, InRange n g)
+    (hb : ((abelianInvariantsB n rels).2 : Int) < isizeMax)
+    (hb' : ((abelianInvariantsB n (rels ++ extra)).2 : Int) < isizeMax) :
+    abelianInvariants n (rels ++ extra) = abelianInvariants n rels := by
+  have hprod : ∀ u, RelProd rels u → ∀ g ∈ u, InRange n g := by
+    intro u hu
+    induction hu with
+    | mem w hw => exact hin w hw
+    | one => intro g hg; simp [FW.empty, FW.new, FW.normalized] at hg
+    | mul a b _ _ iha ihb => exact mul_inRange iha ihb
+    | inv a _ iha => exact inverse_inRange iha
+  have hin' : ∀ w ∈ rels ++ extra, ∀ g ∈ w, InRange n g := by
+    intro w hw
+    rcases List.mem_append.mp hw with hw | hw
+    · exact hin w hw
+    · exact hprod w (h w hw)
+  exact abelianInvariants_same_lattice n rels (rels ++ extra) hin hin' hb hb'
+    (rowsIn_append n rels extra h).1 (rowsIn_append n rels extra h).2
+
+/-- renaming and inverting generators -/
+theorem invariants_rename_generators {n : Nat} (π : Equiv.Perm (Fin n)) (flip : Fin n → Bool)
+    (rels : List (List Int)) (hin : ∀ w ∈ rels, ∀ g ∈ w, InRange n g)
+    (hb : ((abelianInvariantsB n rels).2 : Int) < isizeMax)
+    (hb' : ((abelianInvariantsB n (rels.map (renameWord π flip))).2 : Int) < isizeMax) :
+    abelianInvariants n (rels.map (renameWord π flip)) = abelianInvariants n rels :=
+  abelianInvariants_rename π flip rels hin hb hb'
+
+/-- non-vacuity of the hypotheses of this section on `⟨a, b | a², b³⟩` and its variants -/
+example :
+    (∀ w ∈ ([[1, 1], [2, 2, 2]] : List (List Int)), ∀ g ∈ w, InRange 2 g) ∧
+    ((abelianInvariantsB 2 [[1, 1], [2, 2, 2]]).2 : Int) < isizeMax ∧
+    -- reorder
+    ([[2, 2, 2], [1, 1]] : List (List Int)).Perm [[1, 1], [2, 2, 2]] ∧
+    ((abelianInvariantsB 2 [[2, 2, 2], [1, 1]]).2 : Int) < isizeMax ∧
+    -- invert the second relator
+    List.Forall₂ (fun w w' => w' = w ∨ w' = FW.inverse w)
+      ([[1, 1], [2, 2, 2]] : List (List Int)) [[1, 1], FW.inverse [2, 2, 2]] ∧
+    ((abelianInvariantsB 2 [[1, 1], FW.inverse [2, 2, 2]]).2 : Int) < isizeMax ∧
+    -- append the product of the two relators
+    (∀ u ∈ [FW.mul [1, 1] [2, 2, 2]], RelProd [[1, 1], [2, 2, 2]] u) ∧
+    ((abelianInvariantsB 2 ([[1, 1], [2, 2, 2]] ++ [FW.mul [1, 1] [2, 2, 2]])).2 : Int) < isizeMax ∧
+    -- swap the generators and invert the first
+    ((abelianInvariantsB 2 (([[1, 1], [2, 2, 2]] : List (List Int)).map
+      (renameWord (Equiv.swap (0 : Fin 2) 1) (fun k => decide (k = 0))))).2 : Int) < isizeMax := by
+  refine ⟨by decide, by decide +kernel, ?_, by decide +kernel, ?_, by decide +kernel, ?_,
+    by decide +kernel, by decide +kernel⟩
+  · exact List.Perm.swap _ _ _
+  · exact List.Forall₂.cons (Or.inl rfl) (List.Forall₂.cons (Or.inr rfl) List.Forall₂.nil)
+  · intro u hu
+    rw [List.mem_singleton] at hu
+    subst hu
+    exact RelProd.mul _ _ (RelProd.mem _ (by simp)) (RelProd.mem _ (by simp))
+
+/-! ## 9. what remains open -/
+
+/-- the unconditional form is FALSE for the model as written and for the code: beyond the bound
+    the Rust code overflows (finding F-C14-overflow) and `find_pivot` overlooks entries of
+    absolute value ≥ `isize::MAX`.  Kept as the statement of the property for an implementation
+    over unbounded integers. -/
 def abelian_invariants_statement : Prop :=
   ∀ (n : Nat) (rels : List (List Int)), (∀ w ∈ rels, ∀ g ∈ w, InRange n g) →
     abelianInvariants n rels = .ok (SpecC14.expected n rels)
